@@ -356,14 +356,15 @@ Theorem gauss_jordan_upper_triangular_nan_aware_returns :
 Proof. exact gj_run_ut_nan_aware. Qed.
 
 (* every run is one of: all pivots non-zero and the finite field result  /  the singular exit
-   (error on the dense path, panic on the generic path)  /  Ok with a non-finite entry in x AND in b *)
+   (the error "system is computationally singular" on BOTH paths at HEAD: /repo 74e12ad turned the
+   generic path's panic into the fast path's error)  /  Ok with a non-finite entry in x AND in b *)
 Theorem gauss_jordan_nan_aware_trichotomy :
   forall (K : fld) (isz : K -> bool), (forall x, isz x = true <-> x = f0 K) ->
   forall (n : nat) (msk : list bool) (dense : bool) (s0 : st (A:=K)), wf_st K n s0 ->
     ((forall c, In c (gj_pivots (NumK K) n msk s0) -> c <> f0 K) /\
      exists s', gj_run (NumK K) dense false n msk s0 = Ok s' /\
                 gj_run (NumO K isz) dense false n msk (lst K s0) = Ok (lst K s'))
-    \/ gj_run (NumO K isz) dense false n msk (lst K s0) = singular_exit K dense
+    \/ gj_run (NumO K isz) dense false n msk (lst K s0) = ErrSingular
     \/ exists s', gj_run (NumO K isz) dense false n msk (lst K s0) = Ok s' /\ nonfinite K isz n s'.
 Proof. exact gj_nan_aware_cases. Qed.
 
@@ -385,7 +386,7 @@ Theorem singular_structure_never_finite :
   forall (n : nat) (msk : list bool) (dense : bool) (s0 : st (A:=K)), wf_st K n s0 ->
     (exists r, zero_row K (idxs msk 0 n) (sa s0) r) \/ (exists c, zero_col K (idxs msk 0 n) (sa s0) c) \/
     (exists r1 r2, same_rows K (idxs msk 0 n) (sa s0) r1 r2) ->
-    gj_run (NumO K isz) dense false n msk (lst K s0) = singular_exit K dense \/
+    gj_run (NumO K isz) dense false n msk (lst K s0) = ErrSingular \/
     exists s', gj_run (NumO K isz) dense false n msk (lst K s0) = Ok s' /\ nonfinite K isz n s'.
 Proof. exact singular_never_finite. Qed.
 
@@ -394,7 +395,7 @@ Theorem matrix_inverse_singular_never_finite :
   forall (n : nat) (msk : list bool) (dense : bool) (m : list (list K)), wf_mat K n m ->
     (exists r, zero_row K (idxs msk 0 n) m r) \/ (exists c, zero_col K (idxs msk 0 n) m c) \/
     (exists r1 r2, same_rows K (idxs msk 0 n) m r1 r2) ->
-    m_inverse (NumO K isz) dense InvPlain n msk (lm K m) = (if dense then ErrSingular else PanicSingular) \/
+    m_inverse (NumO K isz) dense InvPlain n msk (lm K m) = ErrSingular \/
     exists X, m_inverse (NumO K isz) dense InvPlain n msk (lm K m) = Ok X /\
               exists r k, r < n /\ mget (NumO K isz) X r k = None.
 Proof. exact inverse_singular_never_finite. Qed.
@@ -408,13 +409,13 @@ Theorem matrix_inverse_nan_aware_returns :
 Proof. exact inverse_nan_aware. Qed.
 
 (* instances: the decision procedure exists for Qc; zero column -> error (dense path), identical rows ->
-   panic (generic path), regular input -> Ok *)
+   the same error (generic path), regular input -> Ok *)
 Example nan_aware_instances :
   (forall x : QcK, qisz x = true <-> x = f0 QcK) /\
   gj_run (NumO QcK qisz) true false 2 (all_true 2)
          (lst QcK (mkSt (qc [[0;1];[0;2]]%Z) (ident (NumK QcK) 2) (qcv [1;1]%Z))) = ErrSingular /\
   gj_run (NumO QcK qisz) false false 3 (all_true 3)
-         (lst QcK (mkSt (qc [[1;2;3];[4;5;6];[1;2;3]]%Z) (ident (NumK QcK) 3) (qcv [1;1;1]%Z))) = PanicSingular /\
+         (lst QcK (mkSt (qc [[1;2;3];[4;5;6];[1;2;3]]%Z) (ident (NumK QcK) 3) (qcv [1;1;1]%Z))) = ErrSingular /\
   exists s', gj_run (NumO QcK qisz) true false 3 (all_true 3) (lst QcK W0) = Ok s'.
 Proof. exact (conj qisz_spec (conj nan_aware_zero_column_exit (conj nan_aware_identical_rows_exit nan_aware_regular_ok))). Qed.
 
